@@ -91,6 +91,16 @@ def _cases(tier, rng):
             continue
         for st in STORAGES:
             yield {"prog": prog, "storage": st, "scoped": (q + len(st)) % 4 == 0}
+        # history: an earlier map into the same folder, given other input values, died before it had written
+        # run_info.json (which is written last); the run under test then uses the folder with cleanup=False
+        yield {"prog": prog, "storage": STORAGES[q % 3], "scoped": False, "after_died_run": True}
+        # an input whose class is defined in __main__ of the process that runs the map (a script, a notebook)
+        scalars = [n for n, d in prog["inputs"].items() if not d.get("omit")]
+        if scalars:
+            import copy
+            prog2 = copy.deepcopy(prog)
+            prog2["inputs"][scalars[0]]["main_class"] = True
+            yield {"prog": prog2, "storage": ("file_array", "dict")[q % 2], "scoped": False}
         q += 1
     # the run was *given* a value for a parameter that also has an (array) default: what is reloaded is the given value
     want, tries = (6 if tier == "quick" else 60), 0
@@ -143,8 +153,12 @@ def _check(case):
         if pre and isinstance(stor, dict):
             stor = {(k if k == "" else (tuple(pre + x for x in k) if isinstance(k, tuple) else pre + k)): v
                     for k, v in stor.items()}
+        extra = {}
+        if case.get("after_died_run"):
+            _died_run(p, real_in, folder, stor, mk)
+            extra = {"cleanup": False}
         try:
-            res = p.map(real_in, run_folder=folder, parallel=False, storage=stor, **mk)
+            res = p.map(real_in, run_folder=folder, parallel=False, storage=stor, **mk, **extra)
         except Exception as e:  # noqa: BLE001
             return [f"map-raised-{type(e).__name__}: {str(e)[:150]}"]
         produced = {o: progs.to_nested(res[o].output) for o in outs}
@@ -216,8 +230,45 @@ def _check(case):
         shutil.rmtree(folder, ignore_errors=True)
 
 
+class _Died(BaseException):
+    pass
+
+
+def _primed(v):
+    import numpy as np
+    if isinstance(v, np.ndarray):
+        w = np.empty(v.shape, dtype=object)
+        for idx in np.ndindex(v.shape):
+            w[idx] = f"{v[idx]}'"
+        return w
+    if isinstance(v, list):
+        return [_primed(y) for y in v]
+    return f"{v}'"
+
+
+def _died_run(p, real_in, folder, stor, mk):
+    """A map given other values for the same inputs that dies at the moment it would write run_info.json (fault
+    injection at that one call; everything before it is the real code)."""
+    from pipefunc.map._run_info import RunInfo
+    orig = RunInfo.dump
+
+    def die(self):
+        raise _Died
+
+    RunInfo.dump = die
+    try:
+        p.map({k: _primed(v) for k, v in real_in.items()}, run_folder=folder, parallel=False, storage=stor, **mk)
+    except _Died:
+        pass
+    except Exception:  # noqa: BLE001
+        pass
+    finally:
+        RunInfo.dump = orig
+
+
 def _describe(case):
-    return {"program": progs.describe(case["prog"]), "storage": case["storage"], "scoped": case.get("scoped", False)}
+    return {"program": progs.describe(case["prog"]), "storage": case["storage"], "scoped": case.get("scoped", False),
+            "after_died_run": bool(case.get("after_died_run"))}
 
 
 def bounded_checks():
